@@ -9,8 +9,20 @@
    error; configured headers, with $ENV substitution, and the TLS verification flag are what is sent."
 
   Statements and final proofs only.  Models: Model/SchemaLoad.lean (files), Model/IntrospectChain.lean
-  (remote + settings), Model/InputGen.lean (the generators that read the schema object),
-  Spec/BuildClientSchema.lean (top of graphql-core's builder; modelled, validated, not verified).
+  (remote + settings, end to end and stage by stage), Model/InputGen.lean (the generators that read the schema object),
+  Spec/BuildClientSchema.lean (top of graphql-core's builder) and Spec/GqlLexer.lean (graphql-core's lexer as a
+  one-character automaton) - the two Spec files are modelled, validated, not verified.
+
+  What is a theorem and what is not, file part: §1 works on parsed files (a file = the definitions `parse` finds in it)
+  and §1b derives that abstraction from the TEXT level as far as the lexer goes: `joined_text_tokens` (for all texts:
+  the text handed to `parse` for a directory has the token streams of the files, in order - a property of the
+  separator, `join_separator_resets`, which is measured on the real function on every run) and
+  `joined_text_definitions` (the same for definitions, under the explicit token-level hypothesis `DefinitionWise`
+  about graphql-core's parser, which is validated on every generated tree and is not proved).
+  Settings part: §3 states the end-to-end decision (`headers_resolved_and_sent`, `verify_flag_sent`) and, since the
+  headers are STATE handed from `__post_init__` through `main` to the request, the pipeline stage by stage
+  (`staged_eq_chooseSource`, `url_stage_sends_what_it_is_given`, `headers_resolved_exactly_once`) together with the
+  exact region where one `$ENV` resolution and two differ (`second_resolution_identity_iff`).
 
   The property is FALSE on the pinned tree in four modelled places, each with its trigger predicate:
     F1  `trigDefaultLost`      input-field defaults are read from `field.ast_node`, absent after introspection
@@ -33,6 +45,8 @@
 -/
 import AriadneModel.Proofs.SchemaLoad
 import AriadneModel.Proofs.InputGen
+import AriadneModel.Proofs.GqlLexer
+import AriadneModel.Generated.SchemaTextTables
 import AriadneModel.Model.IntrospectChain
 import AriadneModel.Spec.BuildClientSchema
 
@@ -120,6 +134,186 @@ example : IsSplit exampleTree [1, 2, 3, 4, 5] := by
 
 example : load (.dir exampleTree) = .ok [3, 4, 1, 2, 5] := by decide +kernel
 example : suffix "a.graphql" = ".graphql" ∧ suffix ".gql" = "" ∧ suffix "a." = "" ∧ suffix "x.tar.gql" = ".gql" := by
+  decide +kernel
+
+/-- a file at any depth, below directories of any names (dot-directories included), with any name that carries a
+    graphql suffix (dot-files included) is walked: `glob("**/*")` has no notion of "hidden" -/
+def nest {δ : Type} : List String → Tree δ → Tree δ
+  | [], t => t
+  | d :: ds, t => .dir d [nest ds t]
+
+theorem nested_entries {δ : Type} (n : String) (c : Option (List δ)) : ∀ (dirs pre : List String),
+    (⟨pre ++ dirs ++ [n], n, .file c⟩ : Entry δ) ∈ (nest dirs (.file n c)).entries pre
+  | [], pre => by simp [nest, Tree.entries]
+  | d :: ds, pre => by
+    have ih := nested_entries n c ds (pre ++ [d])
+    simp only [nest, Tree.entries, entriesList, List.append_nil, List.mem_cons]
+    right
+    simpa [List.append_assoc] using ih
+
+theorem nested_file_walked {δ : Type} (dirs : List String) (n : String) (c : Option (List δ)) (kids : List (Tree δ))
+    (hn : isGraphqlName n = true) (hk : nest dirs (.file n c) ∈ kids) :
+    ∃ e ∈ walk kids, e.name = n ∧ e.item = .file c := by
+  have hmem : ∀ (ks : List (Tree δ)) (pre : List String) (t : Tree δ) (e : Entry δ), t ∈ ks → e ∈ t.entries pre → e ∈ entriesList pre ks := by
+    intro ks
+    induction ks with
+    | nil => intro pre t e h; cases h
+    | cons k ks ih =>
+      intro pre t e ht he
+      simp only [entriesList, List.mem_append]
+      rcases List.mem_cons.mp ht with rfl | ht'
+      · exact Or.inl he
+      · exact Or.inr (ih pre t e ht' he)
+  refine ⟨⟨[] ++ dirs ++ [n], n, .file c⟩, ?_, rfl, rfl⟩
+  simp only [walk, List.mem_filter]
+  exact ⟨hmem kids [] _ _ hk (nested_entries n c dirs []), hn⟩
+
+example : isGraphqlName ".legacy.graphqls" = true ∧ isGraphqlName "audit.graphql" = true := by decide +kernel
+/-- a dot-file in a dot-directory two levels down is part of the schema -/
+example : load (.dir [.file "a.gql" (some [1]), .dir "types" [.dir ".internal" [.file ".audit.graphql" (some [2, 3])]]])
+    = .ok [1, 2, 3] := by decide +kernel
+
+/-! ## 1b. The text that is parsed: `sep.join(texts)` at token level
+
+`load_graphql_files_from_path` does not concatenate definitions, it concatenates TEXTS (`"\n".join(schema_list)`) and
+`get_graphql_schema_from_path` parses the result.  Section 1 rests on the assumption that the joined text has the
+definitions of the parts.  Its lexical half is proved here over the model of graphql-core's lexer
+(Spec/GqlLexer.lean, tied to the real `Lexer` text by text): whatever the texts are, if each lexes on its own then the
+joined text lexes to the concatenation of their token streams - and that is a property of the SEPARATOR (it must end a
+pending name / number / comment), which is measured on the real function on every run (`schemaJoinSeparator`).
+What remains assumed is stated at token level (`DefinitionWise`) and validated on every generated tree. -/
+
+open Ariadne.Spec.GqlLexer in
+/-- the separator the source uses now brings the lexer back to a token boundary from every state a text may end in -/
+theorem join_separator_resets : Resets SchemaTextTables.schemaJoinSeparator.toList :=
+  resets_of_sepOk _ (by decide +kernel)
+
+open Ariadne.Spec.GqlLexer in
+/-- **joined_text_tokens**: for ANY list of texts that lex on their own (any number of files, any content: names or
+    numbers up to the last character, trailing comments without a newline, strings, block strings), the text handed to
+    `parse` for the directory lexes, and its token stream is the token streams of the files, in order. -/
+theorem joined_text_tokens (texts : List (List Char)) (h : ∀ t ∈ texts, ∃ ks, lexChars t = .ok ks) :
+    lexChars (joinWith SchemaTextTables.schemaJoinSeparator.toList texts) = .ok (texts.map tokensOf).flatten :=
+  lexChars_joinWith _ join_separator_resets texts h
+
+open Ariadne.Spec.GqlLexer in
+/-- ... for two files, spelled out -/
+theorem joined_pair_tokens (a b : List Char) (ta tb : List Tok) (ha : lexChars a = .ok ta) (hb : lexChars b = .ok tb) :
+    lexChars (a ++ SchemaTextTables.schemaJoinSeparator.toList ++ b) = .ok (ta ++ tb) :=
+  lexChars_join _ join_separator_resets a b ta tb ha hb
+
+open Ariadne.Spec.GqlLexer in
+/-- What a change of the separator would break (why `join_separator_resets` is an obligation): without a separator the
+    last name of one file and the first of the next become ONE name; with a blank, a trailing comment swallows the
+    next file's first line.  In both cases every part lexes and the joined text has other tokens. -/
+theorem other_separators_change_the_tokens :
+    lexChars ("scalar A".toList ++ [] ++ "scalar B".toList)
+        = .ok [⟨.name, "scalar".toList⟩, ⟨.name, "Ascalar".toList⟩, ⟨.name, "B".toList⟩] ∧
+    lexChars ("scalar A # old".toList ++ [' '] ++ "scalar B".toList) = .ok [⟨.name, "scalar".toList⟩, ⟨.name, "A".toList⟩] ∧
+    lexChars ("scalar A # old".toList ++ ['\n'] ++ "scalar B".toList)
+        = .ok [⟨.name, "scalar".toList⟩, ⟨.name, "A".toList⟩, ⟨.name, "scalar".toList⟩, ⟨.name, "B".toList⟩] := by
+  refine ⟨?_, ?_, ?_⟩ <;> decide +kernel
+
+open Ariadne.Spec.GqlLexer in
+/-- The part of the old assumption that stays an assumption, now at token level and explicit: graphql-core's parser,
+    which sees only the token stream, parses a stream made of two complete documents definition by definition.
+    (True for type-system documents, which is what a schema directory holds and what the generators produce; NOT true
+    of the full grammar: `type A` and the query shorthand `{ x: Int }` both parse, and together they are one definition.
+    harness/c19.py records that witness on every run and checks the assumption on every generated tree.) -/
+def DefinitionWise {δ : Type} (parseToks : List Tok → Option (List δ)) : Prop :=
+  ∀ ta tb da db, parseToks ta = some da → parseToks tb = some db → parseToks (ta ++ tb) = some (da ++ db)
+
+open Ariadne.Spec.GqlLexer in
+/-- `parse(text).definitions`, for a parser given as a function of the token stream -/
+def parseText {δ : Type} (parseToks : List Tok → Option (List δ)) (t : List Char) : Option (List δ) :=
+  match lexChars t with
+  | .ok ks => parseToks ks
+  | .error _ => none
+
+open Ariadne.Spec.GqlLexer in
+theorem parse_flatten {δ : Type} (parseToks : List Tok → Option (List δ)) (hp : DefinitionWise parseToks)
+    (defs : List Char → List δ) : ∀ texts : List (List Char), texts ≠ [] →
+    (∀ t ∈ texts, parseToks (tokensOf t) = some (defs t)) →
+    parseToks (texts.map tokensOf).flatten = some (texts.map defs).flatten
+  | [], hne, _ => absurd rfl hne
+  | [x], _, h => by simpa using h x (by simp)
+  | x :: y :: rest, _, h => by
+    have ih := parse_flatten parseToks hp defs (y :: rest) (by simp) (fun t ht => h t (by simp [ht]))
+    have hx := h x (by simp)
+    simpa using hp _ _ _ _ hx ih
+
+open Ariadne.Spec.GqlLexer in
+/-- **joined_text_definitions**: under `DefinitionWise`, the document parsed for a directory has the definitions of
+    its files, in the order of the files - this is the abstraction `loadDir` uses (`parts.flatten`), derived from the
+    text level instead of assumed there. -/
+theorem joined_text_definitions {δ : Type} (parseToks : List Tok → Option (List δ)) (hp : DefinitionWise parseToks)
+    (defs : List Char → List δ) (texts : List (List Char)) (hne : texts ≠ [])
+    (h : ∀ t ∈ texts, parseText parseToks t = some (defs t)) :
+    parseText parseToks (joinWith SchemaTextTables.schemaJoinSeparator.toList texts) = some (texts.map defs).flatten := by
+  have hlex : ∀ t ∈ texts, ∃ ks, lexChars t = .ok ks := by
+    intro t ht
+    have := h t ht
+    unfold parseText at this
+    rcases hl : lexChars t with e | ks
+    · simp [hl] at this
+    · exact ⟨ks, rfl⟩
+  have htok : ∀ t ∈ texts, parseToks (tokensOf t) = some (defs t) := by
+    intro t ht
+    have := h t ht
+    unfold parseText at this
+    rcases hl : lexChars t with e | ks
+    · simp [hl] at this
+    · simpa [tokensOf, hl] using this
+  unfold parseText
+  rw [joined_text_tokens texts hlex]
+  exact parse_flatten parseToks hp defs texts hne htok
+
+/-! non-vacuity of `DefinitionWise`: a parser of documents made of `scalar <Name>` definitions -/
+
+open Ariadne.Spec.GqlLexer in
+def parseScalars : List Tok → Option (List (List Char))
+  | [] => some []
+  | [_] => none
+  | k :: n :: rest =>
+    if k = ⟨.name, "scalar".toList⟩ ∧ n.kind = .name then
+      match parseScalars rest with
+      | some ds => some (n.text :: ds)
+      | none => none
+    else none
+
+open Ariadne.Spec.GqlLexer in
+theorem parseScalars_definitionWise : DefinitionWise parseScalars := by
+  intro ta
+  induction ta using parseScalars.induct with
+  | case1 =>
+    intro tb da db ha hb
+    simp [parseScalars] at ha
+    subst ha
+    simpa using hb
+  | case2 t =>
+    intro tb da db ha hb
+    simp [parseScalars] at ha
+  | case3 k n rest hc ds hrest ih =>
+    intro tb da db ha hb
+    simp only [parseScalars, hc, and_self, if_true, hrest] at ha
+    cases ha
+    have := ih tb ds db hrest hb
+    simp [parseScalars, hc, this]
+  | case4 k n rest hc hrest ih =>
+    intro tb da db ha hb
+    simp [parseScalars, hc, hrest] at ha
+  | case5 k n rest hc =>
+    intro tb da db ha hb
+    unfold parseScalars at ha
+    rw [if_neg hc] at ha
+    cases ha
+
+/-- three files (the second ends in a comment without a newline, the third in a name): one document, three definitions -/
+example : parseText parseScalars (Ariadne.Spec.GqlLexer.joinWith SchemaTextTables.schemaJoinSeparator.toList
+      ["scalar A".toList, "scalar B # trailing".toList, "scalar C".toList])
+    = some ["A".toList, "B".toList, "C".toList] := by decide +kernel
+/-- ... and without the separator the same files do not even give the same tokens -/
+example : parseText parseScalars (Ariadne.Spec.GqlLexer.joinWith [] ["scalar A".toList, "scalar B".toList]) = none := by
   decide +kernel
 
 /-! ## 2. Introspection failures -/
@@ -629,6 +823,182 @@ theorem resolveHeaders_pointwise (env : String → Option String) : ∀ (hs r : 
           obtain ⟨y, hy₁, hy₂⟩ := ih₂ j hj
           exact ⟨y, by simpa using hy₁, by simpa using hy₂⟩
 
+/-! ### where the substitution happens: once, in the settings stage; nothing below `main` touches the headers -/
+
+/-- The four calls in sequence (`__post_init__`, the branch in `main.client` / `main.graphql_schema`,
+    `get_graphql_schema_from_url`, `introspect_remote_schema`) compute the end-to-end decision. -/
+theorem staged_eq_chooseSource (env : String → Option String) (pathExists : Bool) (c : SourceCfg) :
+    chooseSourceStaged env pathExists c = chooseSource env pathExists c := by
+  unfold chooseSourceStaged postInit chooseSource mainSource urlCall introspectCall
+  by_cases h1 : c.schemaPath = "" ∧ c.remoteUrl = ""
+  · rw [if_pos h1, if_pos h1]
+  · rw [if_neg h1, if_neg h1]
+    by_cases h2 : c.schemaPath ≠ "" ∧ (!pathExists) = true
+    · rw [if_pos h2, if_pos h2]
+    · rw [if_neg h2, if_neg h2]
+      rcases hr : resolveHeaders env c.headers with n | hs
+      · rfl
+      · by_cases hp : c.schemaPath = ""
+        · have hu : c.remoteUrl ≠ "" := fun hu => h1 ⟨hp, hu⟩
+          simp [hp]
+        · have hpe : pathExists = true := by
+            cases pathExists
+            · exact absurd ⟨hp, rfl⟩ h2
+            · rfl
+          simp [hp]
+
+/-- `get_graphql_schema_from_url` / `introspect_remote_schema` send exactly what they are given - for every URL,
+    every header list (values starting with `$` included: there is no environment at this level) and both TLS flags. -/
+theorem url_stage_sends_what_it_is_given (url : String) (hs : List (String × String)) (v : Bool) :
+    urlCall url hs v = ⟨url, hs, v, Tables.introspectionQueryFlags⟩ ∧ introspectCall url hs v = urlCall url hs v :=
+  ⟨rfl, rfl⟩
+
+/-- What the request of the staged pipeline carries is what the settings stage stored - the state handed from
+    `__post_init__` to the request is not transformed again on the way. -/
+theorem request_carries_settings_state (env : String → Option String) (pathExists : Bool) (c : SourceCfg) (call : PostCall)
+    (h : chooseSourceStaged env pathExists c = .ok (.remote call)) :
+    ∃ s, postInit env pathExists c = .ok s ∧ s.schemaPath = "" ∧
+      call.url = s.remoteUrl ∧ call.headers = s.headers ∧ call.verify = s.verifySsl := by
+  unfold chooseSourceStaged at h
+  rcases hs : postInit env pathExists c with e | s
+  · simp [hs] at h
+  · simp only [hs, Except.ok.injEq] at h
+    unfold mainSource at h
+    by_cases hp : s.schemaPath = ""
+    · simp only [hp, ne_eq, not_true_eq_false, if_false, Chosen.remote.injEq] at h
+      subst h
+      exact ⟨s, rfl, hp, rfl, rfl, rfl⟩
+    · simp [hp] at h
+
+/-- **headers_resolved_exactly_once**: the headers of the request are `resolve_headers` of the configured ones -
+    one application, whatever the environment values look like. -/
+theorem headers_resolved_exactly_once (env : String → Option String) (pathExists : Bool) (c : SourceCfg) (call : PostCall)
+    (h : chooseSourceStaged env pathExists c = .ok (.remote call)) :
+    resolveHeaders env c.headers = .ok call.headers := by
+  rw [staged_eq_chooseSource] at h
+  exact (headers_resolved_and_sent env pathExists c call h).2.2.1
+
+/-- `value.lstrip("$")` -/
+def lstripDollar (v : String) : String := String.ofList (v.toList.dropWhile (· == '$'))
+
+/-- Exactly which values `get_header_value` returns unchanged: those that do not start with `$`, and the
+    self-referential ones (`NAME=$NAME` in the environment). -/
+theorem headerValue_fixed_iff (env : String → Option String) (v : String) :
+    headerValue env v = .ok v ↔ (startsWithDollar v = false ∨ env (lstripDollar v) = some v) := by
+  unfold headerValue
+  split
+  · rename_i rest heq
+    have hd : startsWithDollar v = true := by simp [startsWithDollar, heq]
+    have hn : lstripDollar v = String.ofList (rest.dropWhile (· == '$')) := by
+      simp [lstripDollar, heq, List.dropWhile]
+    have hne : v ≠ "" := by
+      intro hv; rw [hv] at heq; simp at heq
+    rw [hn]
+    rcases hx : env (String.ofList (rest.dropWhile (· == '$'))) with _ | x
+    · simp only [hx, hd, Bool.true_eq_false, false_or]
+      constructor
+      · intro h; cases h
+      · intro h; cases h
+    · simp only [hx, hd, Bool.true_eq_false, false_or, Option.some.injEq]
+      by_cases hxe : x = ""
+      · subst hxe
+        simp only [if_true]
+        constructor
+        · intro h; cases h
+        · intro h; exact absurd h.symm hne
+      · simp only [hxe, if_false, Except.ok.injEq]
+  · rename_i hno
+    have hd : startsWithDollar v = false := by
+      unfold startsWithDollar
+      rcases hl : v.toList with _ | ⟨c, cs⟩
+      · simp
+      · by_cases hc : c = '$'
+        · subst hc; exact absurd hl (hno cs)
+        · simp [hc]
+    simp [hd]
+
+/-- **second_resolution_identity_iff**: resolving an (already resolved) header list again gives the same list
+    exactly when every value is one that `get_header_value` leaves alone.  So a pipeline that resolves in two
+    places agrees with this one on plain values and on nothing else. -/
+theorem second_resolution_identity_iff (env : String → Option String) : ∀ r : List (String × String),
+    resolveHeaders env r = .ok r ↔ ∀ kv ∈ r, (startsWithDollar kv.2 = false ∨ env (lstripDollar kv.2) = some kv.2)
+  | [] => by simp [resolveHeaders]
+  | (k, v) :: rest => by
+    have ih := second_resolution_identity_iff env rest
+    unfold resolveHeaders
+    rcases hv : headerValue env v with n | x
+    · have hnf : ¬ (startsWithDollar v = false ∨ env (lstripDollar v) = some v) := by
+        intro hfix
+        rw [(headerValue_fixed_iff env v).mpr hfix] at hv
+        cases hv
+      constructor
+      · intro h; cases h
+      · intro h; exact absurd (h (k, v) (by simp)) hnf
+    · rcases hr : resolveHeaders env rest with n | r'
+      · constructor
+        · intro h; cases h
+        · intro h
+          have : resolveHeaders env rest = .ok rest := ih.mpr (fun kv hkv => h kv (by simp [hkv]))
+          rw [this] at hr; cases hr
+      · constructor
+        · intro h
+          simp only [Except.ok.injEq, List.cons.injEq, Prod.mk.injEq, true_and] at h
+          obtain ⟨hx, hr'⟩ := h
+          subst hx; subst hr'
+          intro kv hkv
+          rcases List.mem_cons.mp hkv with rfl | hm
+          · exact (headerValue_fixed_iff env _).mp hv
+          · exact ih.mp hr kv hm
+        · intro h
+          have h1 : headerValue env v = .ok v := (headerValue_fixed_iff env v).mpr (h (k, v) (by simp))
+          have h2 : resolveHeaders env rest = .ok rest := ih.mpr (fun kv hkv => h kv (by simp [hkv]))
+          rw [h1] at hv; rw [h2] at hr
+          cases hv; cases hr
+          rfl
+
+/-- in particular a second resolution is harmless on values that do not start with `$` ... -/
+theorem second_resolution_plain (env : String → Option String) (r : List (String × String))
+    (h : ∀ kv ∈ r, startsWithDollar kv.2 = false) : resolveHeaders env r = .ok r :=
+  (second_resolution_identity_iff env r).mpr (fun kv hkv => Or.inl (h kv hkv))
+
+/-- ... and is NOT the identity in general: the documented `Authorization = "$TOKEN"` with a crypt-style secret in
+    `TOKEN` resolves to the secret once, and a second pass looks for a variable named after the secret. -/
+def cryptEnv : String → Option String := fun n => if n = "TOKEN" then some "$2y$10$abc" else none
+
+theorem second_resolution_not_identity :
+    resolveHeaders cryptEnv [("Authorization", "$TOKEN")] = .ok [("Authorization", "$2y$10$abc")] ∧
+    resolveHeaders cryptEnv [("Authorization", "$2y$10$abc")] = .error "2y$10$abc" := by
+  constructor <;> decide +kernel
+
+/-- and on that configuration the modelled pipeline sends the secret (non-vacuity of `headers_resolved_exactly_once`) -/
+example : chooseSourceStaged cryptEnv false ⟨"", "http://h/graphql", [("Authorization", "$TOKEN")], true⟩
+    = .ok (.remote ⟨"http://h/graphql", [("Authorization", "$2y$10$abc")], true, Tables.introspectionQueryFlags⟩) := by
+  rfl
+example : startsWithDollar "$2y$10$abc" = true ∧ startsWithDollar "Bearer $x" = false ∧ startsWithDollar "" = false ∧
+    lstripDollar "$$A$b" = "A$b" := by decide +kernel
+
+/-- Full strength, last sentence of the property: when the remote source is used, the one request carries the
+    configured URL, the configured headers after one `$ENV` substitution (same names, same order) and the configured
+    TLS verification flag - through the pipeline as the code runs it, stage by stage. -/
+def C19_sent_full : Prop :=
+  ∀ (env : String → Option String) (pathExists : Bool) (c : SourceCfg) (call : PostCall),
+    chooseSourceStaged env pathExists c = .ok (.remote call) →
+      c.schemaPath = "" ∧ call.url = c.remoteUrl ∧ resolveHeaders env c.headers = .ok call.headers ∧
+        call.verify = c.verifySsl ∧ call.queryFlags = Tables.introspectionQueryFlags
+
+theorem sent_as_configured : C19_sent_full := by
+  intro env pathExists c call h
+  rw [staged_eq_chooseSource] at h
+  have h1 := headers_resolved_and_sent env pathExists c call h
+  exact ⟨h1.1, h1.2.1, h1.2.2.1, verify_flag_sent env pathExists c call h, h1.2.2.2⟩
+
+/-- ... and it is used: only the remote source configured, every variable set -/
+theorem remote_request_goes_out (env : String → Option String) (pathExists : Bool) (c : SourceCfg) (hs : List (String × String))
+    (hp : c.schemaPath = "") (hu : c.remoteUrl ≠ "") (hr : resolveHeaders env c.headers = .ok hs) :
+    chooseSourceStaged env pathExists c = .ok (.remote ⟨c.remoteUrl, hs, c.verifySsl, Tables.introspectionQueryFlags⟩) := by
+  rw [staged_eq_chooseSource]
+  exact remote_chosen env pathExists c hs hp hu hr
+
 /-! The flags of the query that is sent are NOT pinned by a theorem: the model reads them from the regenerated
     table (`Introspect.queryFlag`), so that repairing finding F4 (`input_value_deprecation=True`) moves the model
     with the code instead of breaking a proof. -/
@@ -766,19 +1136,20 @@ theorem enums_source_and_order_invariant (d₁ d₂ : List TypeDef) (h : d₁.Pe
 
 /-! ## 5. The property as a whole -/
 
-/-- C19 at full strength = its three parts. -/
-def C19_full : Prop := C19_split_full ∧ C19_inputs_full ∧ C19_failures_full
+/-- C19 at full strength = its four parts (files, sources, failures, what is sent). -/
+def C19_full : Prop := C19_split_full ∧ C19_inputs_full ∧ C19_failures_full ∧ C19_sent_full
 
 theorem C19_full_false : ¬ C19_full := fun h => C19_inputs_full_false h.2.1
 
-/-- What holds: the file part at full strength; the source part and the failure part outside the
-    trigger regions of the recorded findings. -/
+/-- What holds: the file part and the what-is-sent part at full strength; the source part and the failure part
+    outside the trigger regions of the recorded findings. -/
 theorem C19_partial :
     C19_split_full ∧
     (∀ defs : List TypeDef, ValidInputs defs → Supported_19 defs → inputResults .sdl defs = inputResults introMode defs) ∧
     (∀ (σ : Type) (build : List (String × J) → Except String σ) (p : PostResult), Failure build p →
-        ¬ (trigRequestExcUntyped p = true ∨ trigDataRejected build p = true) → IsIntrospectionError (schemaFromUrl build p)) :=
-  ⟨split_invariant, C19_inputs_partial, C19_failures_partial⟩
+        ¬ (trigRequestExcUntyped p = true ∨ trigDataRejected build p = true) → IsIntrospectionError (schemaFromUrl build p)) ∧
+    C19_sent_full :=
+  ⟨split_invariant, C19_inputs_partial, C19_failures_partial, sent_as_configured⟩
 
 /-- non-vacuity of the source part: a schema with inputs, an enum, a nullable `= null` default, a
     recursive input, inside the supported region -/
